@@ -377,6 +377,9 @@ func (s *Sched) Alive() []string {
 func Point(kind OpKind, obj unsafe.Pointer) {
 	s := S
 	if s == nil || s.free {
+		if D != nil && (kind == OpLock || kind == OpRLock || kind == OpTryLock) {
+			delayPoint(kind.String() + "@" + delayKey(callerPC()))
+		}
 		return
 	}
 	pc := callerPC()
@@ -506,6 +509,13 @@ func GoMain(name string, fn func()) { spawn(name, fn, false) }
 func spawn(name string, fn func(), daemon bool) {
 	s := S
 	if s == nil || s.free {
+		if D != nil {
+			go func() {
+				delayPoint("go@" + name)
+				fn()
+			}()
+			return
+		}
 		go fn()
 		return
 	}
